@@ -1445,6 +1445,11 @@ def collect_core(prop, tier, fnd, cov):
                            segments=(("forget", 1500 if tier == "quick" else 4000),))
         seg = stage_segments(tier, idump["forget"]["file"], "segments-forget", universe="4")
         stages_ext.segments_into(prop, seg, fnd, cov, sys.modules[__name__], "forget")
+        # ... and the random histories in which a third of the iterators are leaked (the iterator
+        # model has no limit below usize::MAX, these have): what stays with C01 / C02 in a
+        # tainted segment is decided by the trace specification, everything else is C17's
+        fplan = stages_ext.forget_plan(tier, int(os.environ.get("VERIF_SEED", "0")))
+        collect_drive(prop, stage_drive(tier, name="drive-forget", plan=fplan), fnd, cov, crash_owner="C17")
     if prop == "C05":
         # the order in a cache made by clone / clone_from (two-cache tour, shared with C14)
         import stages_ext
